@@ -1089,9 +1089,13 @@ class VMNetwork(object):
         nic_interface = list(netconfig.interfaces.values())[-1]
         nic_params = nic_interface.params.copy()
         nic_params["ip"] = new_ip
-        nic_params["ip_provider"] = netconfig.translate_address(
-            netconfig.gateway, new_ip
-        )
+        # the default 0.0.0.0 stands for no gateway and is not an address to translate
+        if netconfig.gateway != "0.0.0.0":
+            nic_params["ip_provider"] = netconfig.translate_address(
+                netconfig.gateway, new_ip
+            )
+        if netconfig.host_ip is not None and netconfig.host_ip != "":
+            nic_params["host"] = netconfig.translate_address(netconfig.host_ip, new_ip)
         if new_mask is not None:
             nic_params["netmask"] = new_mask
         interface = self.new_interface(nic_interface.name, nic_params)
